@@ -725,6 +725,12 @@ fn gen_cases(a: &Args) -> Vec<Case> {
             sub.extend(probes(*kind, *code, &pos_airdrop, &[]).into_iter().rev().take(8));
             sub.extend(probes(*kind, *code, &zero_airdrop, &[]).into_iter().rev().take(8));
         }
+        // degenerate governance settings: zero minimum price (free editions), limits of 1, zero offset
+        let free = Params { min_price: 0, airdrop_price: 10, ..d.clone() };
+        v.extend(probes(*kind, *code, &free, &[]));
+        let tiny = Params { min_price: 0, max_tokens: 1, max_pal: 1, offset: 0, airdrop_price: 0, ..d.clone() };
+        sub.extend(probes(*kind, *code, &tiny, &[]));
+        sub.extend(probes(*kind, *code, &d, &[free.clone()]).into_iter().rev().take(12));
         if a.thorough() {
             v.extend(sub);
         } else {
